@@ -357,6 +357,27 @@ def gen_mixed(rng, healthy=True):
     return dict(envs=[base_env(rng, sim)], ops=ops, files=files, healthy=healthy)
 
 
+def gen_frag_slow(rng):
+    """Fragmentation WITH time: every read returns a few bytes and takes a while, the transport timeout is short and the read timeout generous,
+    packets are small enough to arrive well inside read_timeout_s.  The packet reader's deadline is read_timeout_s (not the transport timeout,
+    not per fragment): every operation must succeed with the same result as with unfragmented delivery."""
+    out = rand_bytes(rng, rng.choice([30, 90, 200]))
+    content = rand_bytes(rng, rng.choice([0, 60, 150]))
+    shell = {b"echo": [out[:len(out) // 2], out[len(out) // 2:]] if rng.random() < 0.5 else [out], b"": [b"restarting adbd as root\n"]}
+    fs = {b"/d": ("dir", [(b"n%d" % j, rand_u32(rng), rand_u32(rng), rand_u32(rng)) for j in range(rng.randrange(0, 3))]), b"/f": content}
+    stat = {b"/f": (33188, len(content), 77)}
+    pool = [dict(op="shell", cmd=b"echo", decode=False), dict(op="stat", path=b"/f"), dict(op="list", path=b"/d"), dict(op="pull", path=b"/f", cb="none"),
+            dict(op="exec_out", cmd=b"echo", decode=False), dict(op="streaming_shell", cmd=b"echo", decode=False), dict(op="push", src=("bytesio", 0), path=b"/sdcard/up", cb="none")]
+    rng.shuffle(pool)
+    ops = [connect_op(rng)] + pool[:rng.randrange(2, 5)]
+    tt = rng.choice([256, 512])
+    for op in ops[1:]:
+        op["tt"], op["rt"] = tt, 10240
+    sim = dict(maxdata=4096, shell=shell, fs=fs, stat=stat, burst=rng.random() < 0.3, remote_ids=rand_remote_ids(rng))
+    env = dict(sim=sim, dt=rng.choice([60, 100]), frags=[rng.choice([5, 8, 8, 13]) for _ in range(1500)])
+    return dict(envs=[env], ops=ops, files={0: rand_bytes(rng, rng.choice([0, 40, 300]))}, healthy=True)
+
+
 def with_fault(rng, scn, total_in, total_out):
     """Copy of a healthy scenario with one fault, then close + reconnect to a healthy device + the same ops again."""
     s = copy.deepcopy(scn)
